@@ -2,6 +2,8 @@
 //! usage: rfverif <property> --tier quick|thorough --seed N --out DIR
 #![feature(rustc_private)]
 mod c12;
+mod corpus;
+mod pool;
 mod util;
 
 use std::path::PathBuf;
@@ -9,6 +11,9 @@ use std::path::PathBuf;
 fn main() {
     let args: Vec<String> = std::env::args().collect();
     let prop = args.get(1).cloned().unwrap_or_default();
+    if prop == "--worker" {
+        std::process::exit(pool::worker_main(&args[2]));
+    }
     let mut tier = "quick".to_string();
     let mut seed = 0u64;
     let mut out = PathBuf::from("/verif/work/out");
@@ -24,7 +29,26 @@ fn main() {
     }
     let code = match prop.as_str() {
         "c12" => c12::run(&tier, seed, &out),
+        "probe" => probe(&out),
         _ => { eprintln!("unknown property {}", prop); 2 }
     };
     std::process::exit(code);
+}
+
+/// smoke test of the worker pool: formats the fixtures once and prints a summary
+fn probe(_out: &std::path::Path) -> i32 {
+    let progs = corpus::programs(&["tests/target"]);
+    let jobs: Vec<pool::Job> = progs.iter().map(|p| pool::Job { src: p.src.clone(), cfg: p.cfg.clone(), file_lines: None }).collect();
+    let t0 = std::time::Instant::now();
+    let res = pool::run_jobs(&jobs, util::jobs(), std::time::Duration::from_secs(20));
+    let mut counts = std::collections::BTreeMap::new();
+    let mut changed = 0;
+    for (p, r) in progs.iter().zip(res.iter()) {
+        let k = match &r.status { pool::Status::Ok => if r.clean() { "clean" } else { "ok-with-flags" }, pool::Status::Err(_) => "err", pool::Status::Panic(m) => { eprintln!("panic {} {}", p.name, m); "panic" }, pool::Status::Timeout => "timeout", pool::Status::Died(_) => "died", pool::Status::BadConfig(_) => "badconfig" };
+        *counts.entry(k).or_insert(0) += 1;
+        if r.clean() && r.out != p.src { changed += 1; if changed <= 3 { eprintln!("changed: {} {:?} outlen={} srclen={}", p.name, p.cfg, r.out.len(), p.src.len()); } }
+        if !r.clean() && counts.len() < 10 && r.status == pool::Status::Ok { eprintln!("flags {} {:?} {:?}", p.name, r.flags, r.entries.first()); }
+    }
+    eprintln!("{} programs in {:?}: {:?}; clean but not a fixed point: {}", progs.len(), t0.elapsed(), counts, changed);
+    0
 }
